@@ -46,6 +46,8 @@ class World:
             return a.CreateCopy() if c["n"] == -1 else a.CreateCopy(values=vals(c["n"]))
         if op == "CopyToUnit":
             return a.CreateCopy(unit=c["u"])
+        if op == "CopyValuesTo":
+            return a.CreateCopy(values=vals(c["n"]), unit=c["u"]) if c["form"] == "unit" else a.CreateCopy(values=vals(c["n"]), unit=c["u"], category="length")
         if op == "Pickle":
             return pickle.loads(pickle.dumps(a))
         if op == "Scale":
@@ -74,7 +76,7 @@ class World:
         return [(type(x).__name__, x.dimension, [float(v) for v in x.GetAbstractValue()], x.GetUnit()) for x in self.pool], cv
 
 
-APP = ("Ctor", "CtorDefault", "CreateWithQuantity", "CreateEmptyArray", "CreateCopy", "CopyToUnit", "Pickle", "Scale", "AddArrays", "ChangingIndex")
+APP = ("Ctor", "CtorDefault", "CreateWithQuantity", "CreateEmptyArray", "CreateCopy", "CopyToUnit", "CopyValuesTo", "Pickle", "Scale", "AddArrays", "ChangingIndex")
 
 
 def short(h):
